@@ -17,6 +17,7 @@ import (
 	"reflect"
 	"sort"
 	"strings"
+	"sync"
 
 	"github.com/cockroachdb/redact"
 )
@@ -50,7 +51,9 @@ var firstUseCalls = []firstUseCall{
 		return string(redact.StartMarker()) + string(redact.EndMarker()) + string(redact.RedactedMarker())
 	}},
 	{"StringWithoutMarkers", "C07", func() string { return redact.StringWithoutMarkers(redact.RedactableString(fuText)) }},
-	{"Sprint", "C12", func() string { return string(redact.Sprint("u‹\n", redact.Safe("s"), 3, nil, []interface{}{"x", 1.5})) }},
+	{"Sprint", "C12", func() string {
+		return string(redact.Sprint("u‹\n", redact.Safe("s"), 3, nil, []interface{}{"x", 1.5}))
+	}},
 	{"Sprintf", "C12", func() string {
 		return string(redact.Sprintf("%+v %#v %08.3f %x %q %[1]T %!", struct{ A, b interface{} }{"u", 2}, "g", 3.25, "hx", '‹'))
 	}},
@@ -97,12 +100,18 @@ var firstUseCalls = []firstUseCall{
 		redact.SortStrings(s)
 		return fmt.Sprint(s)
 	}},
-	{"MakeFormat", "C12", func() string { return string(redact.Sprintf("%+08.3d|%v|%-4x", fuFormatter{}, fuFormatter{}, fuFormatter{})) }},
-	{"Unsafe", "C12", func() string { return string(redact.Sprintf("%v %d", redact.Unsafe(redact.SafeString("s")), redact.Unsafe(3))) }},
+	{"MakeFormat", "C12", func() string {
+		return string(redact.Sprintf("%+08.3d|%v|%-4x", fuFormatter{}, fuFormatter{}, fuFormatter{}))
+	}},
+	{"Unsafe", "C12", func() string {
+		return string(redact.Sprintf("%v %d", redact.Unsafe(redact.SafeString("s")), redact.Unsafe(3)))
+	}},
 	{"SafeTypes", "C12", func() string {
 		return string(redact.Sprint(redact.SafeInt(1), redact.SafeUint(2), redact.SafeFloat(1.5), redact.SafeRune('r'), SVStr("sv"), redact.RedactableString("‹r›"), redact.RedactableBytes("‹b›")))
 	}},
-	{"ErrorOperand", "C12", func() string { return string(redact.Sprintf("%v %+v", os.ErrClosed, fmt.Errorf("w: %w", os.ErrClosed))) }},
+	{"ErrorOperand", "C12", func() string {
+		return string(redact.Sprintf("%v %+v", os.ErrClosed, fmt.Errorf("w: %w", os.ErrClosed)))
+	}},
 	{"PanickingMethod", "C12", func() string {
 		return string(redact.Sprint(StringerV{S: "x", pan: func() interface{} { return "boom" }}, (*StringerP)(nil)))
 	}},
@@ -121,9 +130,13 @@ var firstUseCalls = []firstUseCall{
 	}},
 }
 
+var warmMu sync.Mutex
+
 // FirstUseSpec names the entry point that is called first.
 type FirstUseSpec struct {
 	Entry string `json:"entry"`
+	// Conc: the first call is made by 8 goroutines at once
+	Conc bool `json:"conc,omitempty"`
 }
 
 func init() {
@@ -133,7 +146,7 @@ func init() {
 }
 
 // firstUseResults: the named call first, then all calls in table order.
-func firstUseResults(first string) map[string]string {
+func firstUseResults(first string, conc bool) map[string]string {
 	out := map[string]string{}
 	call := func(c firstUseCall) (s string) {
 		defer func() {
@@ -144,8 +157,27 @@ func firstUseResults(first string) map[string]string {
 		return c.run()
 	}
 	for _, c := range firstUseCalls {
-		if c.name == first {
+		if c.name == first && !conc {
 			out["first:"+c.name] = call(c)
+		}
+		if c.name == first && conc && !touchesGlobalConfig[c.name] {
+			// several goroutines make the first call at the same time
+			var wg sync.WaitGroup
+			got := make([]string, 8)
+			start := make(chan struct{})
+			for g := range got {
+				wg.Add(1)
+				go func(g int) {
+					defer wg.Done()
+					<-start
+					got[g] = call(c)
+				}(g)
+			}
+			close(start)
+			wg.Wait()
+			for g := range got {
+				out[fmt.Sprintf("first[%d]:%s", g, c.name)] = got[g]
+			}
 		}
 	}
 	for _, c := range firstUseCalls {
@@ -154,9 +186,13 @@ func firstUseResults(first string) map[string]string {
 	return out
 }
 
+// entry points that change process-wide configuration while they run are
+// not called concurrently with themselves
+var touchesGlobalConfig = map[string]bool{"RegisterSafeType": true, "ErrorHook": true}
+
 // firstUseChild is run by TestMain in the subprocess, before anything else.
-func firstUseChild(first string) {
-	res := firstUseResults(first)
+func firstUseChild(first string, conc bool) {
+	res := firstUseResults(first, conc)
 	var keys []string
 	for k := range res {
 		keys = append(keys, k)
@@ -171,7 +207,17 @@ func checkFirstUse(s *FirstUseSpec) Result {
 	res := Result{NonTrivial: true, Classes: []string{"first:" + s.Entry}}
 	cmd := exec.Command(os.Args[0], "-test.run", "^$")
 	cmd.Env = append(os.Environ(), "VERIF_FIRST_USE="+s.Entry, "VERIF_OUT=", "VERIF_FAILFILE=")
+	if s.Conc {
+		cmd.Env = append(cmd.Env, "VERIF_FIRST_USE_CONC=1")
+		res.Classes = append(res.Classes, "concurrent-first-call")
+	}
+	var stderr bytes.Buffer
+	cmd.Stderr = &stderr
 	outb, err := cmd.Output()
+	if bytes.Contains(stderr.Bytes(), []byte("DATA RACE")) {
+		res.Err = fmt.Errorf("a fresh process in which 8 goroutines make %s their first library call: %s", s.Entry, firstLines(stderr.Bytes(), 40))
+		return res
+	}
 	fresh := map[string]string{}
 	for _, line := range strings.Split(string(outb), "\n") {
 		f := strings.Fields(line)
@@ -184,12 +230,16 @@ func checkFirstUse(s *FirstUseSpec) Result {
 			fresh[string(k)] = string(v)
 		}
 	}
-	warm := firstUseResults(s.Entry)
+	// (the warm results are computed by one check at a time: some entry
+	// points install and remove process-wide configuration)
+	warmMu.Lock()
+	warm := firstUseResults(s.Entry, s.Conc)
+	warmMu.Unlock()
 	if len(fresh) != len(warm) {
 		// the child died (or never started): report what it said
 		if len(fresh) == 0 && err != nil && !bytes.Contains(outb, []byte("FIRSTUSE")) {
-			if ee, ok := err.(*exec.ExitError); ok && len(ee.Stderr) > 0 {
-				res.Err = fmt.Errorf("a fresh process whose first library call is %s died: %v: %s", s.Entry, err, firstLines(ee.Stderr, 6))
+			if stderr.Len() > 0 {
+				res.Err = fmt.Errorf("a fresh process whose first library call is %s died: %v: %s", s.Entry, err, firstLines(stderr.Bytes(), 6))
 				return res
 			}
 			panic(fmt.Sprintf("HARNESS: first-use subprocess: %v", err))
